@@ -212,6 +212,19 @@ def main():
             if tier not in mc.get("tiers", ("quick", "thorough")):
                 continue
             t1 = time.time()
+            if mc.get("kind") == "apalache":
+                # symbolic check of a length-0 invariant (all values of the variables at once) with Apalache
+                odir = os.path.join(work, "apalache-out")
+                rc, out = run(["apalache-mc", "check", "--length=0", "--inv=" + mc["inv"], "--out-dir=" + odir,
+                               os.path.join(SPEC, mc["module"] + ".tla")], mc.get("timeout", 900), cwd=work)
+                shutil.rmtree(odir, ignore_errors=True)
+                okk = "The outcome is: NoError" in out
+                ev["mc"].append({"module": mc["module"], "engine": "apalache", "inv": mc["inv"], "rc": rc, "ok": okk,
+                                 "wall_s": round(time.time() - t1, 1), "what": mc.get("what", "")})
+                log("[%s] apalache %s inv=%s: %s in %.0fs" % (pid, mc["module"], mc["inv"], "NoError" if okk else "FAILED", time.time() - t1))
+                if not okk:
+                    tool_errors.append("apalache check of %s failed or found a counterexample (model-level)\n%s" % (mc["module"], out[-1500:]))
+                continue
             tmo = mc.get("timeout", {"quick": 600, "thorough": 3000})[tier] if isinstance(mc.get("timeout"), dict) else mc.get("timeout", 900)
             simarg = mc.get("simulate", {}).get(tier) if isinstance(mc.get("simulate"), dict) else mc.get("simulate")
             if simarg:
